@@ -66,6 +66,9 @@ mod dynamic_binding;
     allow(dead_code)
 )]
 mod echo_operation;
+/// Verification-only seams (feature `echo_verif`); see `/verif/DESIGN.md`.
+#[cfg(feature = "echo_verif")]
+pub mod echo_verif;
 mod edict_target_ir;
 mod engine_impl;
 pub mod evidence;
